@@ -85,6 +85,7 @@ CONFIGS = {
                      OPTS=dict(MULTI="PTHREAD", CORES=4)),
     "rsapd-pkcs1": _cfg(OPTS=dict(CP_RSAPD="PKCS1")),
     "rsapd-basic": _cfg(OPTS=dict(CP_RSAPD="BASIC")),
+    "cp-nocrt": _cfg(OPTS=dict(CP_CRT="off")),
     # CMAKE_TRY_COMPILE_TARGET_TYPE: cmake's compiler check must not link an executable, the trace-pc hook
     # (__sanitizer_cov_trace_pc) is only defined in the runner
     "trace256": _cfg(CFLAGS=COMMON + " -fno-inline -fsanitize-coverage=trace-pc", LDFLAGS="",
